@@ -20,7 +20,7 @@ CHECKS = {
               note="Open known finding KF-C01-1 (setup fields are pulled in front of a loop that then does not iterate; enshrined in upstream's acc-dedup.mlir) is attributed by re-running the case with the hoisting restricted to loops that are known to iterate, and only for programs with a setup that writes only some fields in an environment where a loop really does not run. Trusts the IR interpreter and device model in /verif (assumptions A1-A3), xDSL 0.70 + irdl_options shim instead of the pinned xDSL commit; bounds: <=24 statements, nesting<=3, <=2 accelerators x <=6 fields, trip counts 0..4 and 9.",
               tech="deterministic simulation of the emitted accfg program (reference vs deduplicated) with seeded clobber/latency faults; history refinement oracle", ref="5 C01"),
  "C04": dict(text="Seeded search over (accelerator configuration, accfg program) pairs: the register map comes from generate_acc_op() of the current tree for seeded streamer configurations of every accelerator class; the program is lowered by convert-accfg-to-csr and executed on a CSR-level device model (registers by address, launch/busy/barrier conventions, RoCC decoder) next to the accfg-level reference under clobber, latency and CSR-garbage faults. Compared: per-field write history through the declared map, register snapshot by address at every launch (where a non-injective map shows), await behaviour, RoCC operand pairs, and that no accfg value survives.",
-              note="Open known finding KF-C04-1 (the per-channel gemmx launch lowering writes tracked fields behind the state tracking) is attributed by a counterfactual run of the reference model. Trusts the CSR device model written from the docstrings in accelerators/snax.py (polling conventions, status registers at launch_streamer+1/+2, clearing write 0x3c5 for hwpe_mult); barrier styles 2 and 4 (unused by any accelerator class of the repo) are exercised through synthetic accelerators defined in /verif; gemmx mult_vals launches are not generated; PHS accelerator built with a duck-typed PE/template; values compared mod 2^32 / 2^64.",
+              note="Open known finding KF-C04-1 (the per-channel gemmx launch lowering writes tracked fields behind the state tracking) is attributed by a counterfactual run of the reference model; KF-C04-2 (RoCC: the half of an instruction pair that a setup without a known incoming state leaves alone is emitted as 0) masks only gemmini mismatches of exactly that form in programs with such a half-written pair. Trusts the CSR device model written from the docstrings in accelerators/snax.py (polling conventions, status registers at launch_streamer+1/+2, clearing write 0x3c5 for hwpe_mult); barrier styles 2 and 4 (unused by any accelerator class of the repo) are exercised through synthetic accelerators defined in /verif; gemmx mult_vals launches are not generated; PHS accelerator built with a duck-typed PE/template; values compared mod 2^32 / 2^64.",
               tech="deterministic simulation of the lowered CSR program against a device model with seeded latency / CSR-garbage / clobber faults; refinement of the accfg-level history through the declared register map", ref="5 C04"),
  "C11": dict(text="Seeded search (degenerate use of the simulator: one core, no interleaving; injected nondeterminism: L1 window, alignments, solver packing order, runtime shapes): (size) the size arithmetic emitted by memref-to-snax is executed with runtime shapes and compared with the highest byte an independent layout oracle says the layout touches; (place) functions with allocs, subviews, casts and uses in straight-line and nested code are lowered by memref-to-snax,canonicalize,snax-allocate in all four modes and executed on a memory with ownership shadow: uses stay inside their allocation, the window and the alignment, and buffers live at the same time never share addresses.",
               note="Open known finding KF-C11-1 (minimalloc restarts at offset 0 in every function) masks only overlaps between buffers of different functions. The minimalloc solver is a stub (first-fit interval packer, seeded order): what is checked of the repo is the lifetime computation, address materialisation and size formula; uses touch first/last byte of their view; row-major 1-D buffers in the placement family; A8 for dynamic TSL steps.",
